@@ -357,6 +357,8 @@ type c04Handle struct {
 	node  generic.Node
 	val   generic.Value
 	model *TVal
+	rootT *TType // type of this handle's value (handles of one world may hold values of different types)
+	rootD *thrift.TypeDescriptor
 }
 
 func (h *c04Handle) raw() []byte {
@@ -373,6 +375,34 @@ type c04 struct {
 	rootD   *thrift.TypeDescriptor
 	handles []*c04Handle
 	vg      *vgen
+	// paths: name-addressed path slices are built once and passed again whenever the same textual path is
+	// used later, on whichever handle - the way a caller keeps `ownerPath := []Path{NewPathFieldName("owner")}`
+	paths map[string][]generic.Path
+}
+
+// libPath returns the library path for ps; name-addressed ones are the caller's long-lived slices.
+func (c *c04) libPath(ps []pstep, byName bool) []generic.Path {
+	if !byName {
+		return toLibPath(ps, false)
+	}
+	key := ""
+	for _, p := range ps {
+		if p.Kind == 0 && p.Name != "" {
+			key += "." + p.Name
+		} else {
+			key += "/" + p.String()
+		}
+	}
+	if lp, ok := c.paths[key]; ok {
+		c.w.Count("path_slice_reused")
+		return lp
+	}
+	lp := toLibPath(ps, true)
+	if c.paths == nil {
+		c.paths = map[string][]generic.Path{}
+	}
+	c.paths[key] = lp
+	return lp
 }
 
 func descAt(d *thrift.TypeDescriptor, t *TType, path []pstep) *thrift.TypeDescriptor {
@@ -571,7 +601,7 @@ func (c *c04) verifyAll(after string, edited *c04Handle, insParent *TVal, insIdx
 	}
 	for _, h := range c.handles {
 		raw := h.raw()
-		got, n, err := decodeThrift(raw, c.rootT, 0)
+		got, n, err := decodeThrift(raw, h.rootT, 0)
 		facts := map[string]string{"after": after, "handle_is_edited": fmt.Sprint(h == edited)}
 		if err != nil {
 			c.w.Failf("not-wellformed", facts, "after %s: handle %s no longer decodes: %v\nraw: %x", after, h.name, err, clipb(raw, 300))
@@ -604,7 +634,7 @@ func runC04(w *W) {
 	}
 	w.World.PoolFreshPct = pickInt(t, "knob.poolfresh", 20, 0, 100)
 	so := tgenOpts{MaxStructs: 1 + t.Intn(3, "sch.structs"), MaxFields: 2 + t.Intn(6, "sch.fields"), MaxDepth: 1 + t.Intn(3, "sch.depth"),
-		BigIDs: t.Chance(1, 3, "sch.bigids"), Recursive: t.Chance(1, 3, "sch.rec"), Requiredness: false}
+		BigIDs: t.Chance(1, 3, "sch.bigids"), Recursive: t.Chance(1, 3, "sch.rec"), Requiredness: false, SharedNames: t.Chance(1, 2, "sch.sharednames")}
 	sch := genSchema(t, so)
 	rootDesc := parseThrift(w, sch, thrift.Options{})
 	c := &c04{w: w, sch: sch, rootT: sch.Root, rootD: rootDesc}
@@ -627,7 +657,7 @@ func runC04(w *W) {
 	raw := encodeThrift(nil, orig)
 	w.Logf("IDL:\n%s\nroot type %s, %d bytes: %x", sch.IDL, typeName(c.rootT), len(raw), clipb(raw, 300))
 	mk := func(name string, typed bool, b []byte, m *TVal) *c04Handle {
-		h := &c04Handle{name: name, typed: typed, model: m}
+		h := &c04Handle{name: name, typed: typed, model: m, rootT: c.rootT, rootD: c.rootD}
 		buf := append([]byte{}, b...)
 		if typed {
 			h.val = generic.NewValue(c.rootD, buf)
@@ -642,7 +672,7 @@ func runC04(w *W) {
 	nsteps := 3 + t.Intn(22, "nsteps")
 	for s := 0; s < nsteps; s++ {
 		h := c.handles[t.Intn(len(c.handles), "step.handle")]
-		kind := t.Intn(13, "step.kind")
+		kind := t.Intn(15, "step.kind")
 		byName := h.typed && t.Chance(1, 2, "step.byname")
 		switch kind {
 		case 0, 1, 2: // set existing
@@ -650,7 +680,7 @@ func runC04(w *W) {
 			if !ok {
 				continue
 			}
-			tt := typeOfPath(c.rootT, path)
+			tt := typeOfPath(h.rootT, path)
 			nv := c.newValue(tt)
 			w.NextOp(fmt.Sprintf("%s.SetByPath(existing %s) typed=%v byName=%v", h.name, pathString(path), h.typed, byName))
 			exist, err := c.doSet(h, path, nv, tt, byName)
@@ -668,7 +698,7 @@ func runC04(w *W) {
 			if !ok {
 				continue
 			}
-			tt := typeOfPath(c.rootT, path)
+			tt := typeOfPath(h.rootT, path)
 			if tt == nil {
 				continue
 			}
@@ -716,7 +746,7 @@ func runC04(w *W) {
 		case 9: // fork
 			if len(c.handles) < 4 {
 				w.NextOp(fmt.Sprintf("%s.Fork()", h.name))
-				f := &c04Handle{name: fmt.Sprintf("fork%d", len(c.handles)), typed: h.typed, model: cloneVal(h.model)}
+				f := &c04Handle{name: fmt.Sprintf("fork%d", len(c.handles)), typed: h.typed, model: cloneVal(h.model), rootT: h.rootT, rootD: h.rootD}
 				if h.typed {
 					f.val = h.val.Fork()
 				} else {
@@ -730,6 +760,10 @@ func runC04(w *W) {
 			c.setMany(h)
 		case 12: // the new value is a sub-node of the edited value itself (it aliases the buffer being rewritten)
 			c.setFromOwn(h)
+		case 13: // a value of another type enters the program: a struct found inside h becomes a root of its own
+			c.subRoot(h)
+		case 14: // a Value used as a slot: replaced as a whole (empty path) by a value of possibly another type
+			c.rootSet(h)
 		default: // ReplaceByPath
 			if h.typed {
 				continue
@@ -738,7 +772,7 @@ func runC04(w *W) {
 			if !ok {
 				continue
 			}
-			tt := typeOfPath(c.rootT, path)
+			tt := typeOfPath(h.rootT, path)
 			nv := c.newValue(tt)
 			w.NextOp(fmt.Sprintf("%s.ReplaceByPath(%s)", h.name, pathString(path)))
 			exist, err := h.node.ReplaceByPath(func(old generic.Node) generic.Node {
@@ -799,15 +833,15 @@ func (c *c04) verifyAllFacts(after string, edited *c04Handle, facts map[string]s
 func (c *c04) doSet(h *c04Handle, path []pstep, nv *TVal, tt *TType, byName bool) (bool, error) {
 	b := encodeThrift(nil, nv)
 	if h.typed {
-		d := descAt(c.rootD, c.rootT, path)
-		return h.val.SetByPath(generic.NewValue(d, b), toLibPath(path, byName)...)
+		d := descAt(h.rootD, h.rootT, path)
+		return h.val.SetByPath(generic.NewValue(d, b), c.libPath(path, byName)...)
 	}
 	return h.node.SetByPath(generic.NewNode(thrift.Type(tt.Kind), b), toLibPath(path, false)...)
 }
 
 func (c *c04) doUnset(h *c04Handle, path []pstep, byName bool) error {
 	if h.typed {
-		return h.val.UnsetByPath(toLibPath(path, byName)...)
+		return h.val.UnsetByPath(c.libPath(path, byName)...)
 	}
 	return h.node.UnsetByPath(toLibPath(path, false)...)
 }
@@ -839,7 +873,7 @@ func (c *c04) failingOp(h *c04Handle) {
 		if !ok {
 			return
 		}
-		tt := typeOfPath(c.rootT, path)
+		tt := typeOfPath(h.rootT, path)
 		other := byte(tI64)
 		if tt.Kind == tI64 {
 			other = tSTRING
@@ -913,7 +947,7 @@ func (c *c04) setMany(h *c04Handle) {
 	vals := make([]*TVal, len(steps))
 	desc := make([]string, len(steps))
 	for i, s := range steps {
-		tt := typeAt(c.rootT, s)
+		tt := typeAt(h.rootT, s)
 		vals[i] = c.newValue(tt)
 		pns[i] = generic.PathNode{Path: toLibPath([]pstep{s}, false)[0], Node: generic.NewNode(thrift.Type(tt.Kind), encodeThrift(nil, vals[i]))}
 		desc[i] = s.String()
@@ -930,7 +964,7 @@ func (c *c04) setMany(h *c04Handle) {
 	w.Count("setmany")
 	// order-insensitive check at the root container, exact below
 	raw := h.raw()
-	got, nb, err := decodeThrift(raw, c.rootT, 0)
+	got, nb, err := decodeThrift(raw, h.rootT, 0)
 	if err != nil || nb != len(raw) {
 		w.Failf("not-wellformed", map[string]string{"after": "setmany"}, "after SetMany handle %s no longer decodes (%v, %d of %d bytes): %x", h.name, err, nb, len(raw), clipb(raw, 300))
 	}
@@ -1090,4 +1124,56 @@ func (c *c04) setFromOwn(h *c04Handle) {
 	modelSet(h.model, a.path, cloneVal(b.v))
 	w.Count("set_from_own_subnode")
 	c.verifyAll("set-own "+pathString(a.path), h, nil, 0)
+}
+
+// subRoot makes a struct value found inside h the root of a new typed handle.
+func (c *c04) subRoot(h *c04Handle) {
+	w, t := c.w, c.w.T
+	if len(c.handles) >= 5 || !h.typed {
+		return
+	}
+	var all, cands []pathVal
+	collectPaths(h.model, nil, &all)
+	for _, pv := range all {
+		if pv.v.T.Kind == tSTRUCT && len(pv.path) > 0 {
+			cands = append(cands, pv)
+		}
+	}
+	if len(cands) == 0 {
+		return
+	}
+	pv := cands[t.Intn(len(cands), "subroot.which")]
+	w.NextOp(fmt.Sprintf("NewValue(%s of %s)", typeName(pv.v.T), h.name))
+	d := descAt(h.rootD, h.rootT, pv.path)
+	nh := &c04Handle{name: fmt.Sprintf("sub%d", len(c.handles)), typed: true, model: cloneVal(pv.v), rootT: pv.v.T, rootD: d}
+	nh.val = generic.NewValue(d, encodeThrift(nil, pv.v))
+	c.handles = append(c.handles, nh)
+	w.Count("subroot_handle")
+	c.verifyAll("subroot", nil, nil, 0)
+}
+
+// rootSet replaces the whole value of a typed handle by (a fork of) another typed handle's value.
+func (c *c04) rootSet(h *c04Handle) {
+	w, t := c.w, c.w.T
+	var others []*c04Handle
+	for _, o := range c.handles {
+		if o != h && o.typed {
+			others = append(others, o)
+		}
+	}
+	if !h.typed || len(others) == 0 {
+		return
+	}
+	o := others[t.Intn(len(others), "rootset.from")]
+	w.NextOp(fmt.Sprintf("%s.SetByPath(%s.Fork()) with an empty path", h.name, o.name))
+	exist, err := h.val.SetByPath(o.val.Fork())
+	if err != nil || !exist {
+		w.Failf("set-existing-failed", nil, "SetByPath with an empty path: exist=%v err=%v", exist, err)
+	}
+	h.model, h.rootT, h.rootD = cloneVal(o.model), o.rootT, o.rootD
+	w.Count("root_set")
+	if o.rootT.St != nil && h.rootT.St != nil {
+		w.Sig("rootset")
+	}
+	c.verifyAll("rootset", h, nil, 0)
 }
